@@ -458,6 +458,18 @@ func (ex *Exec) assumeOlder(v Val) {
 	}
 }
 
+// heapOlder: every pointer held by the (just havoced) heap refers to an object that exists now,
+// so it differs from every object allocated from here on.
+func (ex *Exec) heapOlder(st *State) {
+	if ex.spec > 0 {
+		return
+	}
+	h := st.heap.array("H_Ptr", arrSort(SPtr, SPtr))
+	q := BoundVar("hpo", SPtr)
+	k := ex.nextObj
+	ex.fact(nil, Forall([]*Term{q}, Not(underPred(Select(h, q), func(r *Term) *Term { return newerThan(r, k) }, 2))))
+}
+
 func SameVal0(a, b *Term) *Term {
 	if a == b {
 		return True()
